@@ -400,8 +400,12 @@ class Executor:
                 if so.zero:
                     k = a
                     while k < b:
-                        items.append((k, 1, 0))
-                        k += 1
+                        if (src.off + k) % 8 == 0 and k + 8 <= b and (dst.off + k) % 8 == 0:
+                            items.append((k, 8, 0))
+                            k += 8
+                        else:
+                            items.append((k, 1, 0))
+                            k += 1
                 else:
                     es = getattr(so, "elem_size", 8)
                     ety = getattr(so, "elem_ty", None)
